@@ -17,6 +17,13 @@ import numpy as np
 
 from vf import gen
 
+
+def ckpt_variant(sv, rng, idx=None):
+    from vf import ckpt
+
+    return ckpt.variant_kw(sv, rng, idx)
+
+
 LEVEL = "fault_enumeration"
 TECHNIQUE = "graceful-interruption enumeration: every interruption iteration k (thorough) run as three fresh processes and compared bitwise with the uninterrupted run; chains of interruptions; construction-order probe"
 RULE = ("cases = solver (vi, pi, rvi, periodic, semi-async fixed order) x problem (reduced shipped problems via restore(), "
@@ -42,7 +49,7 @@ PROBLEMS = {
                                                                      useful_life_at_arrival_distribution_c_1=[0.3])),
 }
 CAP = 60
-EPS = {"vi": 1e-2, "pi": 1e-3, "rvi": 1e-3, "per": 1e-2, "sa": 1e-2}
+EPS = {"vi": 0.3, "pi": 1e-3, "rvi": 1e-2, "per": 0.3, "sa": 0.3}
 
 
 def _tab_problem(rng, sv):
@@ -57,8 +64,9 @@ def gen_cases(seed, tier):
     pnames = ["de_moor_a", "forest"] if tier == "quick" else ["de_moor_a", "de_moor_b", "forest", "mirjalili"]
     chunk = 3
     for sv in ["vi", "pi", "rvi", "per", "sa"]:
-        for pn in pnames + ["tabular"]:
+        for pi_, pn in enumerate(pnames + ["tabular"]):
             prob = PROBLEMS[pn] if pn != "tabular" else _tab_problem(rng, sv)
+            vkw = ckpt_variant(sv, rng, pi_)
             if tier == "quick":
                 ks_all = sorted({int(x) for x in rng.choice(np.arange(1, 26), size=3, replace=False)})
             else:
@@ -67,6 +75,7 @@ def gen_cases(seed, tier):
                 ks_all = [1, 2, 3] if tier == "quick" else [1, 2, 3, 4, 5, 6]
             for i in range(0, len(ks_all), chunk):
                 cases.append(dict(kind="resume", solver=sv, pname=pn, problem=prob, ks=ks_all[i:i + chunk],
+                                  vkw=vkw,
                                   route="restore" if pn != "tabular" else "load_checkpoint",
                                   f=str(rng.choice(["1", "3", "k"])), m=int(rng.choice([1, 3])), asyn=bool(rng.integers(0, 2)),
                                   chain=bool(rng.random() < 0.35), devices=1))
@@ -107,8 +116,10 @@ def run_case(case):
         shutil.rmtree(base, ignore_errors=True)
 
 
-def _kw(sv, extra=None):
+def _kw(sv, extra=None, vkw=None):
     kw = dict(epsilon=EPS[sv])
+    if vkw:
+        kw.update(vkw)
     if extra:
         kw.update(extra)
     return kw
@@ -116,7 +127,8 @@ def _kw(sv, extra=None):
 
 def _resume(case, sv, base):
     prob = case["problem"]
-    ref, err = leg(dict(mode="ref", solver=sv, problem=prob, kw=_kw(sv), cap=CAP, trajectory=True))
+    vkw = case.get("vkw")
+    ref, err = leg(dict(mode="ref", solver=sv, problem=prob, kw=_kw(sv, None, vkw), cap=CAP, trajectory=True))
     if ref is None:
         return dict(status="error", detail=f"reference leg failed: {err}")
     nconv = int(ref["final"]["iteration"])
@@ -128,8 +140,8 @@ def _resume(case, sv, base):
         f = k if case["f"] == "k" else int(case["f"])
         D = os.path.join(base, f"d{k}")
         ck = dict(checkpoint_frequency=f, max_checkpoints=case["m"], enable_async_checkpointing=case["asyn"])
-        where = f"{sv} on {case['pname']} k={k} f={f} m={case['m']} async={case['asyn']} route={case['route']}"
-        first, err = leg(dict(mode="first", solver=sv, problem=prob, kw=_kw(sv, ck), k=k, dir=D))
+        where = f"{sv} on {case['pname']} k={k} f={f} m={case['m']} async={case['asyn']} route={case['route']} options={vkw}"
+        first, err = leg(dict(mode="first", solver=sv, problem=prob, kw=_kw(sv, ck, vkw), k=k, dir=D))
         if first is None:
             return dict(status="violation", kind="first-leg-crash", detail=f"{where}: checkpointed run failed: {err}")
         d = _cmp(first["at_k"], traj[k])
@@ -139,7 +151,7 @@ def _resume(case, sv, base):
         if not first["listing"] or first["listing"][-1] != k:
             return dict(status="violation", kind="no-final-checkpoint",
                         detail=f"{where}: directory holds {first['listing']} after solve({k}) returned")
-        rargs = dict(mode="resume", solver=sv, problem=prob, kw=_kw(sv, ck), dir=D, cap=CAP, route=case["route"])
+        rargs = dict(mode="resume", solver=sv, problem=prob, kw=_kw(sv, ck, vkw), dir=D, cap=CAP, route=case["route"])
         if case["route"] == "load_checkpoint":
             rargs["new_dir"] = os.path.join(base, f"n{k}")
         chain = case["chain"] and (nconv - k) >= 3
